@@ -6,9 +6,13 @@ package main
 import (
 	"bytes"
 	"flag"
+	"fmt"
 	"math/rand"
 	"reflect"
 	"sync"
+	"time"
+
+	kmip "github.com/smira/go-kmip"
 )
 
 func init() { suites["history"] = suiteHistory }
@@ -20,7 +24,7 @@ func suiteHistory(args []string) {
 	fs.Parse(args)
 	r := rand.New(rand.NewSource(*seed))
 	rep := &Report{Suite: "history", Seed: *seed, Distribution: map[string]int{}}
-	rep.Rule = "each evaluation: one value encoded fresh, again after a random history of >= 20 other encodes/decodes of overlapping types, and in 16 goroutines next to other encodes; non-trivial = the value encodes successfully"
+	rep.Rule = "each evaluation: one value encoded fresh, again after a random history of >= 20 other encodes/decodes of overlapping types, and in 16 goroutines next to other encodes; one Encoder reused for sequences of 6 values a third of which it must reject (each step compared with a fresh Encoder); every ordered pair of 15 dynamic element kinds in a user-defined []interface{} field and in adjacent interface fields; non-trivial = the value encodes successfully"
 	types := sortedTypeNames()
 	for i := 0; i < *n; i++ {
 		tn := []string{"Request", "Response", types[r.Intn(len(types))]}[i%3]
@@ -80,5 +84,172 @@ func suiteHistory(args []string) {
 			rep.Samples = append(rep.Samples, map[string]interface{}{"type": tn, "bytes": len(b0)})
 		}
 	}
+	encoderSessions(r, rep, *n)
+	userTypeShapes(r, rep)
 	rep.emit()
+}
+
+// encoderSessions (C02 / C13): ONE Encoder writing to ONE stream is handed a sequence of values, some of which it must
+// reject.  Every value must come out exactly as a fresh Encoder emits it, a rejected value must add nothing, and what
+// happened earlier on the Encoder - in particular a failure inside a nested structure - must not matter.
+func encoderSessions(r *rand.Rand, rep *Report, n int) {
+	types := sortedTypeNames()
+	bad := func() interface{} {
+		switch r.Intn(6) {
+		case 0:
+			return &kmip.Request{Header: kmip.RequestHeader{BatchCount: 1}, BatchItems: []kmip.RequestBatchItem{{Operation: kmip.OPERATION_GET}}} // nil required payload, deep inside
+		case 1:
+			return &kmip.Request{Header: kmip.RequestHeader{BatchCount: 1}, BatchItems: []kmip.RequestBatchItem{{Operation: kmip.OPERATION_GET, RequestPayload: 5}}}
+		case 2:
+			return &kmip.Response{Header: kmip.ResponseHeader{BatchCount: 1}, BatchItems: []kmip.ResponseBatchItem{{Operation: kmip.OPERATION_GET, ResponsePayload: map[string]int{}}}}
+		case 3:
+			return kmip.Attribute{Name: "Cryptographic Length", Value: 128} // int instead of int32
+		case 4:
+			return &BadTag{A: 1}
+		default:
+			return (*kmip.GetRequest)(nil)
+		}
+	}
+	for i := 0; i < n/2+5; i++ {
+		var stream bytes.Buffer
+		e := kmip.NewEncoder(&stream)
+		var seq []string
+		for k := 0; k < 6; k++ {
+			var v interface{}
+			if r.Intn(3) == 0 {
+				v = bad()
+			} else {
+				v = (&gen{r: r, wf: true}).genTop([]string{"Request", "Response", types[r.Intn(len(types))]}[r.Intn(3)])
+			}
+			_, fresh := implEncode(v)
+			before := stream.Len()
+			var err error
+			panicked := ""
+			func() {
+				defer func() {
+					if p := recover(); p != nil {
+						panicked = firstLine(fmt.Sprint(p))
+					}
+				}()
+				err = e.Encode(v)
+			}()
+			added := append([]byte(nil), stream.Bytes()[before:]...)
+			seq = append(seq, firstN(showVal(reflect.ValueOf(&v).Elem()), 300))
+			rep.Evaluations++
+			rep.Distribution["encoder-session:step"]++
+			problem := ""
+			switch {
+			case panicked != "":
+				problem = "Encode panicked: " + panicked
+			case fresh == nil && (err == nil || len(added) != 0):
+				problem = fmt.Sprintf("a value a fresh Encoder rejects: err=%v, %d bytes reached the stream", err, len(added))
+			case fresh != nil && (err != nil || !bytes.Equal(added, fresh)):
+				problem = fmt.Sprintf("a value a fresh Encoder encodes to %d bytes: err=%v, %d bytes reached the stream (%s)", len(fresh), err, len(added), firstN(hexBytes(added), 200))
+			}
+			if problem != "" {
+				if len(rep.Violations) < 12 {
+					rep.Violations = append(rep.Violations, map[string]interface{}{"kind": "encoder-session", "what": "one Encoder reused for a sequence of values: step " + fmt.Sprint(k) + ": " + problem,
+						"sequence": seq})
+				}
+				break
+			}
+		}
+	}
+}
+
+// user-defined structure types (the library is generic): slices of interface{} whose elements have different
+// dynamic types, and interface fields next to each other
+type UserMixed struct {
+	Items []interface{} `kmip:"ATTRIBUTE_VALUE"`
+	Tail  int32         `kmip:"BATCH_COUNT"`
+}
+type UserPair struct {
+	A interface{} `kmip:"ATTRIBUTE_VALUE,required"`
+	B interface{} `kmip:"KEY_VALUE"`
+	C interface{} `kmip:"ATTRIBUTE_VALUE"`
+}
+
+// userTypeShapes (C13 / C02): every ordered pair of dynamic element kinds in one []interface{} field: Encode must not
+// panic; it fails iff one of the elements alone fails, then writes nothing; otherwise the elements are encoded
+// independently of their neighbours (the body is the concatenation of the single-element bodies)
+func userTypeShapes(r *rand.Rand, rep *Report) {
+	elems := []struct {
+		name string
+		v    interface{}
+	}{{"int32", int32(7)}, {"int64", int64(-9)}, {"enum", kmip.Enum(3)}, {"bool", true}, {"string", "abc"}, {"bytes", []byte{1, 2, 3}},
+		{"time", time.Unix(1000, 0)}, {"struct", kmip.Name{Value: "n", Type: 1}}, {"ptr", &kmip.Name{Value: "p", Type: 2}},
+		{"float64", 1.5}, {"int", 5}, {"nil", nil}, {"typednil", (*kmip.Name)(nil)}, {"map", map[string]int{}}, {"duration", 3 * time.Second}}
+	encode := func(v interface{}) (out []byte, failed bool, panicked string) {
+		var buf bytes.Buffer
+		func() {
+			defer func() {
+				if p := recover(); p != nil {
+					panicked = firstLine(fmt.Sprint(p))
+				}
+			}()
+			if err := kmip.NewEncoder(&buf).Encode(v); err != nil {
+				failed = true
+			}
+		}()
+		return buf.Bytes(), failed, panicked
+	}
+	body := func(b []byte) []byte { // strip the 8-byte structure header and the trailing BATCH_COUNT item (16 bytes)
+		if len(b) < 24 {
+			return nil
+		}
+		return b[8 : len(b)-16]
+	}
+	single := map[string][]byte{}
+	singleFails := map[string]bool{}
+	for _, e := range elems {
+		out, failed, p := encode(UserMixed{Items: []interface{}{e.v}, Tail: 1})
+		rep.Evaluations++
+		if p != "" {
+			rep.Violations = append(rep.Violations, map[string]interface{}{"kind": "user-type", "what": "Encode panicked on a user-defined structure with a []interface{} field", "elements": e.name, "panic": p})
+			continue
+		}
+		if failed && len(out) != 0 {
+			rep.Violations = append(rep.Violations, map[string]interface{}{"kind": "user-type", "what": "a failed Encode wrote bytes", "elements": e.name})
+		}
+		singleFails[e.name] = failed
+		single[e.name] = body(out)
+	}
+	for _, a := range elems {
+		for _, b := range elems {
+			for _, shape := range []string{"slice", "pair"} {
+				var v interface{} = UserMixed{Items: []interface{}{a.v, b.v}, Tail: 1}
+				if shape == "pair" {
+					v = UserPair{A: a.v, B: b.v}
+				}
+				out, failed, p := encode(v)
+				rep.Evaluations++
+				rep.Nontrivial++
+				rep.Distribution["user-type:"+shape]++
+				name := shape + ":" + a.name + "," + b.name
+				if p != "" {
+					if len(rep.Violations) < 12 {
+						rep.Violations = append(rep.Violations, map[string]interface{}{"kind": "user-type", "what": "Encode panicked on a user-defined structure whose interface-typed positions hold values of different dynamic types", "elements": name, "panic": p})
+					}
+					continue
+				}
+				if failed && len(out) != 0 && len(rep.Violations) < 12 {
+					rep.Violations = append(rep.Violations, map[string]interface{}{"kind": "user-type", "what": "a failed Encode wrote bytes", "elements": name})
+				}
+				if shape != "slice" {
+					continue
+				}
+				wantFail := singleFails[a.name] || singleFails[b.name]
+				if failed != wantFail && len(rep.Violations) < 12 {
+					rep.Violations = append(rep.Violations, map[string]interface{}{"kind": "user-type", "what": fmt.Sprintf("Encode of two elements fails=%v although the elements alone fail=%v/%v", failed, singleFails[a.name], singleFails[b.name]), "elements": name})
+				}
+				if !failed && !wantFail {
+					want := append(append([]byte(nil), single[a.name]...), single[b.name]...)
+					if !bytes.Equal(body(out), want) && len(rep.Violations) < 12 {
+						rep.Violations = append(rep.Violations, map[string]interface{}{"kind": "user-type", "what": "the elements of a []interface{} field are not encoded independently of their neighbours",
+							"elements": name, "got": hexBytes(body(out)), "want": hexBytes(want)})
+					}
+				}
+			}
+		}
+	}
 }
